@@ -410,7 +410,10 @@ func callTimeout(d time.Duration, f func() error) (err error, timedOut bool, pv 
 	}
 }
 
-const callDeadline = 20 * time.Second
+// generous: the largest generated inputs take a few seconds on an idle machine and tens of seconds when all 16 shards of a
+// thorough run are busy; a call that is still running after two minutes is a hang (the call cannot be retried: it writes into
+// the caller's buffer and keeps running in its goroutine)
+const callDeadline = 120 * time.Second
 
 // mustRun wraps callTimeout for calls that are expected to succeed on valid input.
 func mustRun(what string, f func() error) error {
